@@ -262,6 +262,7 @@ def applyOp (toks : List String) (w : World ByteArray) : Except Err (World ByteA
         | some o => (match setPath w.ws comps (.file (o.bytes theCtx)) with
           | some ws => .ok { w with ws := ws } | none => .error .other)
         | none => .error .other)
+     | some (.file _) => .ok w          -- already a regular file: nothing to do
      | _ => .error .other, #[])
   | ["relink", p, n] =>
     -- point the entry at the n-th object of the cache (sorted), as a link
